@@ -382,6 +382,9 @@ def oracle_node(ops, impl):
             st['g2s'] = {g: s for s, g in live.items()}
             st['s2g'] = dict(live)
             st['unused'] = list(unused)
+            secs = parse_sections(r)
+            st['old'], st['new'] = secs[0][5], secs[0][6]
+            st['part'] = dict(zip(sorted(live), secs[5]))
             st['desync'] = False
             continue
         if op in ('remove_inv', 'remove_wog_inv') and r == 'ok':
